@@ -22,15 +22,29 @@ READER = 'fatfs::dir::DirIter::read_dir_entry'
 BUILDER = 'fatfs::dir::LongNameBuilder'
 
 
-def validated_bpb_fields(facts):
+def validated_bpb_fields(facts, with_struct_invariants=True):
     """field ranges of a BPB inside a FileSystem: what BootSector::validate establishes at its Ok exit (the only
-    constructor of FileSystem runs after it; checked by C07/M2d)"""
+    constructor of FileSystem runs after it; checked by C07/M2d) - plus the struct invariants that rules/invariants.py
+    proves by induction (DiskSlice: offset <= size, byte counts below 2^48)"""
+    cache = facts.__dict__.setdefault('_validated_cache', {})
+    if with_struct_invariants in cache:
+        return dict(cache[with_struct_invariants])
     facts.relations = panics.load_relations()
     V = facts.fns.get('fatfs::boot_sector::BootSector::validate')
     if V is None:
         return {}
     an = Analysis(facts, V, FnCtx({2: (0, 1)}, {}, set()), {}, 0, inst=(facts.insts_of.get(V.name) or [None])[0])
-    return an.established
+    out = dict(an.established)
+    if with_struct_invariants:
+        try:
+            from rules import invariants
+            ok, ranges, _detail = invariants.prove_diskslice(facts)
+            if ok:
+                out.update(ranges)
+        except Exception:
+            pass
+    cache[with_struct_invariants] = dict(out)
+    return out
 
 
 def copy_sources(fn, local):
